@@ -39,8 +39,8 @@ ASSUMPTIONS = [
     "a path/query mixing valid %XX escapes with stray '%' may be encoded either way",
 ]
 REQUIRED_PROBES = {
-    "quick": ["https", "ipv6", "ipv6_zone", "idn", "trailing_dot", "userinfo", "fragment", "dot_segments", "pair_shared_socket", "sibling_dialled_under_own_name", "second_life_checked", "tunnel_setup_fault", "resolver_failed_once", "proxy_forward", "proxy_tunnel", "default_port_explicit", "empty_path_query"],
-    "thorough": ["https", "ipv6", "ipv6_zone", "idn", "trailing_dot", "userinfo", "fragment", "dot_segments", "pair_shared_socket", "sibling_dialled_under_own_name", "second_life_checked", "tunnel_setup_fault", "resolver_failed_once", "proxy_forward", "proxy_tunnel", "default_port_explicit", "empty_path_query"],
+    "quick": ["https", "ipv6", "ipv6_zone", "idn", "trailing_dot", "userinfo", "fragment", "dot_segments", "pair_shared_socket", "sibling_dialled_under_own_name", "second_life_checked", "tunnel_setup_fault", "resolver_failed_once", "reached_by_redirect", "proxy_forward", "proxy_tunnel", "default_port_explicit", "empty_path_query"],
+    "thorough": ["https", "ipv6", "ipv6_zone", "idn", "trailing_dot", "userinfo", "fragment", "dot_segments", "pair_shared_socket", "sibling_dialled_under_own_name", "second_life_checked", "tunnel_setup_fault", "resolver_failed_once", "reached_by_redirect", "proxy_forward", "proxy_tunnel", "default_port_explicit", "empty_path_query"],
 }
 
 HOSTS = ["h.test", "H.Test", "A.B.EXAMPLE.test", "h.test.", "bücher.test", "BÜCHER.test", "10.0.0.5", "[fd00::5]", "[FD00::5]", "[fe80::1%25eth0]", "[fe80::1%eth0]", "xn--bcher-kva.test"]
@@ -75,6 +75,11 @@ def gen(rng):
     if f is not None:
         url += "#" + f
     sc = {"property": ID, "url": url, "via": rng.choice(["direct", "direct", "direct", "proxy"])}
+    if rng.random() < 0.12 and q != "":  # (urljoin drops an empty query from a Location: another URL, not this check's business)
+        # the URL is reached by following a redirect from another host through the same manager: everything the wire says about the
+        # second request must still be what *its* URL says
+        sc["via_redirect_from"] = "http://r.test/go"
+        return sc
     if sc["via"] == "direct" and not host.startswith("[") and not host[0].isdigit() and rng.random() < 0.12:
         # the resolver fails once (EAI_AGAIN) for the URL's spelling of the host; with retries the next attempt succeeds
         sc["dns_fail_once"] = True
@@ -197,13 +202,17 @@ def run(sc: dict) -> Result:
     else:
         w.tags["tls_ports"] = {u0["port"]: u0["scheme"] == "https"}
         w.default_listener = origin
+    if sc.get("via_redirect_from"):
+        w.responder = lambda world, peer, req: ({"k": "resp", "status": 302, "headers": [["Location", sc["url"].split("#")[0]]], "body": ""} if req.target.endswith("/go") else None)
+        if via == "direct":
+            w.tags.setdefault("tls_ports", {})[80] = False
     with H.RunEnv(), H.quiet_warnings(), w:
-        kw = dict(cert_reqs="CERT_NONE", timeout=3.0, retries=(2 if sc.get("dns_fail_once") else False))
+        kw = dict(cert_reqs="CERT_NONE", timeout=3.0, retries=(2 if (sc.get("dns_fail_once") or sc.get("via_redirect_from")) else False))
         pm = urllib3.ProxyManager("http://proxy.test:3128", **kw) if via == "proxy" else urllib3.PoolManager(**kw)
         outs = []
         for url in urls:
             try:
-                r = pm.request("GET", url)
+                r = pm.request("GET", sc["via_redirect_from"] if sc.get("via_redirect_from") else url)
                 outs.append(("ok", r.status))
             except (W.SimHang, W.StepLimit) as e:
                 res.bad("hang", str(e))
@@ -218,6 +227,8 @@ def run(sc: dict) -> Result:
                 ru = read_url(u_)
                 allowed.add((ru["host"] + ("%" + ru["zone"] if ru["zone"] else "")).lower())
                 allowed.add(R.split(u_)[1].rpartition("@")[2].partition(":")[0].lower())  # as written (IDN before encoding)
+            if sc.get("via_redirect_from"):
+                allowed.add("r.test")
             for e_ in w.events:
                 if e_[1] == "dns" and e_[3][0].lower() not in allowed and not u0["v6"]:
                     res.bad("wrong_host_dialled", f"the resolver was asked for {e_[3][0]!r}; the URLs name {sorted(allowed)!r}")
@@ -227,7 +238,7 @@ def run(sc: dict) -> Result:
         if via == "proxy" and u0["scheme"] == "https":
             # whatever became of the request: no connection to the proxy for an https URL may begin with anything but CONNECT
             for s_ in w.sockets:
-                if s_.sent and not bytes(s_.sent).startswith(b"CONNECT "):
+                if s_.sent and not bytes(s_.sent).startswith(b"CONNECT ") and not bytes(s_.sent).startswith(b"GET http://r.test/go "):
                     res.bad("https_not_tunnelled", f"a connection to the proxy for {sc['url']!r} began with {bytes(s_.sent[:24])!r} instead of CONNECT")
                     break
             if sc.get("connect_fault") and w.faults_fired:
@@ -268,14 +279,20 @@ def run(sc: dict) -> Result:
 
 
 def check(sc, w, u, res, via):
-    reqs = [q for q in w.requests]
+    src = [q for q in w.requests if q.target.endswith("/go")]
+    src_sids = {q.sid for q in src} if (src and via == "direct") else set()
+    reqs = [q for q in w.requests if not q.target.endswith("/go")]
+    if sc.get("via_redirect_from"):
+        if not src or not reqs:
+            return  # the redirect was not followed (the Location could not be used): nothing to judge
+        res.probes["reached_by_redirect"] += 1
     if not reqs:
         res.bad("nothing_sent", "request() returned but no request reached any peer")
         return
     first = reqs[0]
     # ---- where the TCP connection went
-    dials = [e[3] for e in w.events if e[1] == "dial"]
-    lookups = [e[3][0] for e in w.events if e[1] == "dns"]
+    dials = [e[3] for e in w.events if e[1] == "dial" and e[2] not in src_sids]
+    lookups = [e[3][0] for e in w.events if e[1] == "dns" and e[3][0] != "r.test"]
     if via == "direct":
         host_q = lookups[0] if lookups else None
         want_dns = u["host"] + ("%" + u["zone"] if u["zone"] else "")
@@ -426,6 +443,10 @@ def shrinks(sc):
         c = copy.deepcopy(sc)
         del c["variant"]
         yield c
+    if sc.get("via_redirect_from"):
+        c = copy.deepcopy(sc)
+        del c["via_redirect_from"]
+        yield c
     if sc.get("connect_fault") == "rst":
         c = copy.deepcopy(sc)
         c["connect_fault"] = "eof"
@@ -463,4 +484,17 @@ def _neut_v6_tunnel(sc):
     return sc
 
 
-KNOWN = {"KF-C15-tunnel-ipv6-host-double-brackets": (_trig_v6_tunnel, _neut_v6_tunnel)}
+def _trig_proxy_redirect_host(sc, res):
+    # (the redirecting first hop is a forwarded plain-http request; whatever follows -- forwarded or tunnelled -- inherits its Host)
+    return sc["via"] == "proxy" and bool(sc.get("via_redirect_from"))
+
+
+def _neut_proxy_redirect_host(sc):
+    sc.pop("via_redirect_from", None)
+    return sc
+
+
+KNOWN = {
+    "KF-C15-tunnel-ipv6-host-double-brackets": (_trig_v6_tunnel, _neut_v6_tunnel),
+    "KF-C15-forwarding-proxy-redirect-keeps-first-host": (_trig_proxy_redirect_host, _neut_proxy_redirect_host),
+}
